@@ -4,6 +4,7 @@ package main
 // C10 (ellipsis), C16 (variable listing), C11 (immutability / aliasing).
 
 import (
+	"bytes"
 	"fmt"
 	"math"
 	"math/big"
@@ -223,6 +224,27 @@ func suiteC12(c *Ctx) {
 		g2.add(Step{Op: "NL", Args: []Arg{r(a), s("..."), s("...[1]")}})
 		g2.add(Step{Op: "NL", Args: []Arg{r(a), s("...[0]"), r(d)}})
 		c.emit(Case{"lists", g2.steps, false})
+	}
+	{
+		// a fill is refused as the constructor refuses: the value put in place of a list variable brings a name
+		// that is already there (directly, one list down, inside a message)
+		g2 := c.gen()
+		r := func(i int) Arg { return Arg{T: 'r', Ref: i} }
+		s := func(x string) Arg { return Arg{T: 's', S: []byte(x)} }
+		b := g2.add(Step{Op: "NU", W: 1, Args: []Arg{s("b")}})
+		val := g2.add(Step{Op: "NI", W: 2, Args: []Arg{{T: 'i', IK: KInt, I: 3}, s("b")}})
+		deep := g2.add(Step{Op: "NL", Args: []Arg{r(val)}})
+		t1 := g2.add(Step{Op: "NL", Args: []Arg{s("a"), r(b)}})
+		g2.add(Step{Op: "FI", Ref: t1, Map: []KV{{[]byte("a"), r(val)}}})
+		g2.add(Step{Op: "FI", Ref: t1, Map: []KV{{[]byte("a"), r(deep)}}})
+		inner := g2.add(Step{Op: "NL", Args: []Arg{s("a")}})
+		t2 := g2.add(Step{Op: "NL", Args: []Arg{r(inner), r(b)}})
+		g2.add(Step{Op: "FI", Ref: t2, Map: []KV{{[]byte("a"), r(val)}}})
+		m := g2.add(Step{Op: "NM", Name: []byte("n"), Stream: 1, Func: 1, WBit: 0, Dir: []byte("H->E"), Ref: t1})
+		g2.add(Step{Op: "FM", Ref: m, Map: []KV{{[]byte("a"), r(val)}}})
+		g2.add(Step{Op: "FM", Ref: m, Map: []KV{{[]byte("a"), r(deep)}}})
+		g2.add(Step{Op: "NL", Args: []Arg{r(val), r(b)}}) // what the constructor says to the same children
+		c.emit(Case{"fill-duplicates", g2.steps, false})
 	}
 	// messages
 	{
@@ -583,6 +605,13 @@ func suiteC09(c *Ctx) {
 			m = g.add(Step{Op: "SW", Ref: m, B: true})
 			sys := g.sysBytes()
 			sid := g.sessionID()
+			if g.chance(0.25) {
+				// system bytes given while the message is not yet addressed: they are kept through every fill
+				pre := g.add(Step{Op: "SS", Ref: m, Sid: -1, Sys: []byte{9, 8, 7, 6}})
+				for _, part := range splitMap(g, full) {
+					pre = g.add(Step{Op: "FM", Ref: pre, Map: part})
+				}
+			}
 			m = g.add(Step{Op: "SS", Ref: m, Sid: sid, Sys: sys})
 			for _, part := range splitMap(g, full) {
 				m = g.add(Step{Op: "FM", Ref: m, Map: part})
@@ -707,6 +736,25 @@ func (g *Gen) typedFill(steps []Step, vars []string, partial bool) []KV {
 
 // composition law on the library alone: filling in several steps equals filling once
 func monitorC09(c *Ctx, id string, cs Case, e *Exec, final []string) {
+	// a fill changes the item and nothing else: name, codes, wait bit, direction, session id, system bytes stay
+	for i, st := range cs.Steps {
+		if st.Op != "FM" {
+			continue
+		}
+		src, ok1 := e.msg(st.Ref)
+		dst, ok2 := e.msg(i)
+		if !ok1 || !ok2 {
+			continue
+		}
+		c.stats["monitor:fill-frames"]++
+		if src.Name() != dst.Name() || src.StreamCode() != dst.StreamCode() || src.FunctionCode() != dst.FunctionCode() ||
+			src.WaitBit() != dst.WaitBit() || src.Direction() != dst.Direction() || src.SessionID() != dst.SessionID() ||
+			!bytes.Equal(src.SystemBytes(), dst.SystemBytes()) {
+			c.hit(id, cs, "fill-changed-header", fmt.Sprintf("step %d: session id %d -> %d, system bytes %x -> %x, header %q -> %q", i,
+				src.SessionID(), dst.SessionID(), src.SystemBytes(), dst.SystemBytes(), src.Header(), dst.Header()))
+			return
+		}
+	}
 	if strings.HasSuffix(cs.Label, "+msg") {
 		// the message filled in steps and the one constructed directly around the
 		// filled item: identical when both exist
@@ -978,10 +1026,20 @@ func (c *Ctx) ellipsisCase(g *Gen, root int, label string) {
 			continue
 		}
 		var m []KV
+		nell := 0
+		for _, v := range vs {
+			if strings.HasPrefix(v, "...") {
+				nell++
+			}
+		}
 		for _, v := range vs {
 			if strings.HasPrefix(v, "...") {
 				if g.chance(0.5) {
-					m = append(m, KV{[]byte(v), Arg{T: 'i', IK: KInt, I: int64(g.pick(3))}})
+					cnt := int64(g.pick(3))
+					if nell <= 2 && g.pick(12) == 0 {
+						cnt = int64(10 + g.pick(2)) // indices with two digits
+					}
+					m = append(m, KV{[]byte(v), Arg{T: 'i', IK: KInt, I: cnt}})
 				}
 			} else if g.chance(0.3) {
 				m = append(m, KV{[]byte(v), Arg{T: 'i', IK: KInt, I: int64(g.pick(2))}})
